@@ -21,17 +21,18 @@ def real_std_overrides(mod, ex_holder):
         over[d] = h
     return over
 
-def job_reader(res, rank):
+def job_reader(res, rank, fb=None):
     """HDF5File::readPhaseSpace from IR with the HDF5 C++ API as a recorder: dataset extents and the requested record are symbolic"""
     bld = c17.loaders_build(); mod = load_module(bld, ['HDF5File'])
     fn = find_fn(mod, 'HDF5File', 'readPhaseSpace'); res.funcs[fn] = fn_lines(mod, fn)
     dims = [z3.BitVec('dim%d' % i, 64) for i in range(4)]; use_step = z3.BitVec('use_step', 64); npts = z3.BitVec('npoints', 64)
+    if fb is not None and rank == 4: dims[1] = z3.BitVecVal(fb, 64)      # a file written by a run with exactly fb bunches (concrete, so that containers sized by it can be built)
     log = {}
     def rd_vec(ex, st, p, n): return [ex.load(st, p + 8 * i, I64) for i in range(n)] if isinstance(p, int) and p else None
     def ndims(ex, st, fr, a, ins): return rank
     def getdims(ex, st, fr, a, ins):
         if not isinstance(a[1], int): raise Unsupported('extent buffer is not a local object')
-        for i in range(rank): ex.store(st, a[1] + 8 * i, I64, dims[i])
+        for i in range(rank): ex.store(st, a[1] + 8 * i, I64, dims[i].as_long() if z3.is_bv_value(dims[i]) else dims[i])
         st.events.append(('getdims', [a[0]], None)); return rank
     def selnp(ex, st, fr, a, ins): st.events.append(('npoints', [a[0]], None)); return npts
     def opends(ex, st, fr, a, ins):
@@ -61,7 +62,7 @@ def job_reader(res, rank):
     reads = [p for p in paths if any(e[0] == 'read' for e in p.events)]
     throws = [p for p in paths if p.kind == 'ended']
     if not reads: raise Unsupported('readPhaseSpace rank %d: no path reaches DataSet::read' % rank)
-    tag = 'readPhaseSpace, /PhaseSpace/data of rank %d (%s), every extent and every requested record' % (rank, '[record][x][y]' if rank == 3 else '[record][bunch][x][y]')
+    tag = 'readPhaseSpace, /PhaseSpace/data of rank %d (%s)%s, every %sextent and every requested record' % (rank, '[record][x][y]' if rank == 3 else '[record][bunch][x][y]', '' if fb is None else ' holding %d bunches' % fb, '' if fb is None else 'other ')
     for p in reads:
         ev = {e[0]: e for e in p.events if isinstance(e[0], str) and e[0] in ('hyperslab', 'memspace', 'read', 'setSize', 'getData', 'open', 'npoints')}
         hs = ev.get('hyperslab'); ms = ev.get('memspace'); rd = ev.get('read'); ss = ev.get('setSize'); gd = ev.get('getData')
@@ -167,7 +168,7 @@ def job_loader_args(res):
 
 def main(tier):
     chk = Check('C11', tier, '4/C11 (9.9)')
-    jobs = [(job_reader, (3,)), (job_reader, (4,)), (job_factory, ()), (preloop.job_preloop, ('C11',)), (preloop.job_rw_sets, ()), (job_loader_args, ())]
+    jobs = [(job_reader, (3,)), (job_reader, (4,)), (job_reader, (4, 2)), (job_reader, (4, 3)), (job_factory, ()), (preloop.job_preloop, ('C11',)), (preloop.job_rw_sets, ()), (job_loader_args, ())]
     chk.bounds = {'reader': 'dataset rank 3 and 4, every record count < 2^62, grid width and bunch count < 2^31, every requested record number in [-records, records)', 'set-up': 'all paths (w.r.t. the renormalisation setting and null tests of phase-space pointers) from the loader call to the first loop test; other decisions one way, both preferences',
                   'claimed part of the statement': 'first sentence first half (loads exactly the stored values) and the refusal sentence; that T2 further periods agree within rounding is NOT decided (needs two program runs): it is argued from this start-state obligation plus the step being a function of the grid (C12), see DESIGN 9.9'}
     chk.assumptions = ['libhdf5 is a correct store: a hyperslab of extents (1,[b,]n,n) read into a memory space of the same extents fills the row-major grid [x][y] in order - the same layout HDF5File::append(PhaseSpace) writes (C10 recorder obligations)',
